@@ -309,7 +309,7 @@ def step (s : DState) (line : String) : DState × String :=
       match Genesis.exportG s.world.store with
       | .ok g => (s, "out=ok " ++ showGenesis g)
       | .error e => (s, "out=" ++ showFail (some e))
-    | "tx" =>
+    | "tx" | "sim" =>
       match rest with
       | ty :: _ =>
         match parseMsg ty kv with
@@ -325,7 +325,9 @@ def step (s : DState) (line : String) : DState × String :=
           let evs := joinOr "|" (r.events.map showEvent)
           let deps := joinOr "|" (r.deps.map showDep)
           let wr := joinOr "," (r.writes.map (fun w => hexStr w.1))
-          ({ s with world := w },
+          -- `sim`: the same computation on a branch that is thrown away (gas simulation, CheckTx, an earlier message of a
+          -- transaction that fails later): the world is left exactly as it was
+          ((if kind == "sim" then s else { s with world := w }),
            "out=" ++ showFail r.fail ++ " resp=" ++ showResp r.resp ++ " events=" ++ evs ++ " deps=" ++ deps ++ " writes=" ++ wr
              ++ " doc=" ++ joinOr "," ((Spec.documented ext m).map hexStr))
       | [] => (s, "bad-op")
